@@ -276,6 +276,11 @@ impl<'a> Run<'a> {
                 format!("after {what}: listing timestamps decrease"),
             );
         }
+        // an empty book has no order to be ahead of another: the priority monitor may start over
+        if l.is_empty() && !self.stamps_valid {
+            self.stamps.clear();
+            self.stamps_valid = true;
+        }
         // C15
         if !self.h.knobs.zero {
             let s = read_stats(&self.level);
@@ -1229,7 +1234,21 @@ impl<'a> Run<'a> {
         self.level = new;
         self.rebase_stats();
         // paths that re-add orders count them as added; the baseline is read after construction
-        self.stamps_valid = false;
+        // arrival order on the rebuilt level = the order of the list it was built from. Every
+        // path lists by timestamp; where the timestamps are strictly increasing that list is
+        // unambiguous and the monitor starts a new epoch from it, otherwise (ties: the order
+        // among equals is the map's) it stops judging until the book is empty again
+        self.stamps.clear();
+        if before.windows(2).all(|w| w[0].ts < w[1].ts) {
+            for o in &before {
+                self.next_stamp += 1;
+                self.stamps.insert(o.id, self.next_stamp);
+            }
+            self.stamps_valid = true;
+            bump(&mut self.out.probes, "restamped_after_restore");
+        } else {
+            self.stamps_valid = false;
+        }
         self.check_state(at, "rebuild");
         let got_price = muted(|| self.level.price());
         if got_price != lp {
